@@ -382,7 +382,7 @@ func verifC19Apply() {
 // ---------- path sets ----------
 
 func c19Path(tag string) Path {
-	shape := vChoice(tag+"-shape", 4+2*vTier())
+	shape := vChoice(tag+"-shape", 2+4*vTier())
 	attr := func(t string) PathStep { return GetAttrStep{Name: vStr(t, 1, 'a', 'b')} }
 	num := func(t string) PathStep { return IndexStep{Key: NumberIntVal(vInt(t, 0, 1))} }
 	str := func(t string) PathStep { return IndexStep{Key: StringVal(vStr(t, 1, 'a', 'b'))} }
@@ -415,9 +415,12 @@ func verifC19PathSet() {
 			eq[i][j] = gvSamePath(paths[i], paths[j])
 		}
 	}
-	sets := []PathSet{NewPathSet(), NewPathSet()}
-	var in [2][U]bool
-	check := func(tag string) {
+	// three live sets: results of the algebra go to a slot of their own (or replace an operand), so that a result
+	// sharing storage with an operand is noticed when either is changed afterwards
+	const S = 3
+	sets := []PathSet{NewPathSet(), NewPathSet(), NewPathSet()}
+	var in [S][U]bool
+	check := func() {
 		for k := range sets {
 			classes := 0
 			for i := 0; i < U; i++ {
@@ -437,64 +440,67 @@ func verifC19PathSet() {
 			vAssert("list-has-one-entry-per-distinct-path", len(sets[k].List()) == classes)
 			vAssert("empty-iff-no-member", sets[k].Empty() == (classes == 0))
 		}
-		same := true
-		for i := 0; i < U; i++ {
-			if in[0][i] != in[1][i] {
-				same = false
+		for a := 0; a < S; a++ {
+			for b := a + 1; b < S; b++ {
+				same := true
+				for i := 0; i < U; i++ {
+					if in[a][i] != in[b][i] {
+						same = false
+					}
+				}
+				vAssert("equal-agrees-with-model", sets[a].Equal(sets[b]) == same && sets[b].Equal(sets[a]) == same)
 			}
 		}
-		vAssert("equal-agrees-with-model", sets[0].Equal(sets[1]) == same && sets[1].Equal(sets[0]) == same)
 	}
 	steps := 2 + vTier()
 	for s := 0; s < steps; s++ {
-		k := vChoice("set", 2)
-		switch vChoice("op", 6) {
-		case 0:
+		op := vChoice("op", 6)
+		if op <= 1 {
+			k := vChoice("set", S)
 			i := vChoice("path", U)
-			sets[k].Add(paths[i])
+			if op == 0 {
+				sets[k].Add(paths[i])
+			} else {
+				sets[k].Remove(paths[i])
+			}
 			for j := 0; j < U; j++ {
 				if eq[i][j] {
-					in[k][j] = true
+					in[k][j] = op == 0
 				}
 			}
-		case 1:
-			i := vChoice("path", U)
-			sets[k].Remove(paths[i])
+		} else {
+			a, b := vChoice("lhs", 2), vChoice("rhs", 2)
+			dst := 2
+			if vChoice("dst", 2) == 1 {
+				dst = a
+			}
+			var r PathSet
+			var m [U]bool
 			for j := 0; j < U; j++ {
-				if eq[i][j] {
-					in[k][j] = false
+				switch op {
+				case 2:
+					m[j] = in[a][j] || in[b][j]
+				case 3:
+					m[j] = in[a][j] && in[b][j]
+				case 4:
+					m[j] = in[a][j] && !in[b][j]
+				default:
+					m[j] = in[a][j] != in[b][j]
 				}
 			}
-		case 2:
-			r := sets[k].Union(sets[1-k])
-			var m [U]bool
-			for j := 0; j < U; j++ {
-				m[j] = in[k][j] || in[1-k][j]
+			switch op {
+			case 2:
+				r = sets[a].Union(sets[b])
+			case 3:
+				r = sets[a].Intersection(sets[b])
+			case 4:
+				r = sets[a].Subtract(sets[b])
+			default:
+				r = sets[a].SymmetricDifference(sets[b])
 			}
-			sets[k], in[k] = r, m
-		case 3:
-			r := sets[k].Intersection(sets[1-k])
-			var m [U]bool
-			for j := 0; j < U; j++ {
-				m[j] = in[k][j] && in[1-k][j]
-			}
-			sets[k], in[k] = r, m
-		case 4:
-			r := sets[k].Subtract(sets[1-k])
-			var m [U]bool
-			for j := 0; j < U; j++ {
-				m[j] = in[k][j] && !in[1-k][j]
-			}
-			sets[k], in[k] = r, m
-		default:
-			r := sets[k].SymmetricDifference(sets[1-k])
-			var m [U]bool
-			for j := 0; j < U; j++ {
-				m[j] = in[k][j] != in[1-k][j]
-			}
-			sets[k], in[k] = r, m
+			sets[dst], in[dst] = r, m
 		}
-		check("step")
+		check()
 	}
 	vReach("end")
 }
